@@ -106,6 +106,11 @@ def memory_cases():
     for k in (1, 2, 11, 12, 13, len(v2) - 12, len(v2) - 11):
         cs.append(("memory: v2 + v2 without its last %d bytes" % k, None, v2 + v2[:len(v2) - k]))
     cs.append(("memory: v1 + v1 without its last 5 bytes", None, v1 + v1[:-5]))
+    # an entry whose Length is negative: refused, and a caller that goes on after the error must find the cursor where a
+    # cursor may be (run_case walks on after every CorruptRecordException)
+    for ln in (-2 ** 31, -2 ** 31 + 1, -2 ** 30, -2 ** 24, -65536, -4096, -13, -12, -1, 0, 13, -(len(v2) + 12)):
+        cs.append(("memory: v2 followed by an entry of Length %d" % ln, None, v2 + struct.pack(">qi", 1, ln) + bytes(30)))
+    cs.append(("memory: first entry of Length -2^31", None, struct.pack(">qi", 0, -2 ** 31) + bytes(40)))
     return cs
 
 
@@ -176,6 +181,22 @@ def run_case(kind, magic, data, name=""):
                 return "has_next() and next_batch() disagree: compiled %r, python %r" % (c[-3:], p[-3:])
             if c != p:
                 return "compiled and pure-Python decoders disagree: compiled %r, python %r" % (c[:6], p[:6])
+            # a caller that skips what it cannot decode: the cursor stays a cursor (no read outside the bytes, no batch
+            # handed out again and again)
+            from aiokafka.record._crecords.memory_records import MemoryRecords
+            m = MemoryRecords(exact_block(data) if False else bytes(data))
+            got = 0
+            for _ in range(60):
+                try:
+                    b = m.next_batch()
+                except CorruptRecordException:
+                    m.has_next()
+                    continue
+                if b is None:
+                    break
+                got += 1
+            if got > len(data) // 26 + 1:
+                return "a caller that goes on after CorruptRecordException was handed %d batches out of %d bytes" % (got, len(data))
     except (SystemError, MemoryError) as e:
         return "raised %s: %s" % (type(e).__name__, e)
     except Exception:
